@@ -699,14 +699,14 @@ impl Prop for C10 {
                 ctx.run_one("product", &case, Err(Failure::new(format!("after bytes {}: {}", hex(path), msg))));
             }
         }
-        let n = ctx.share(ctx.tier.n(400_000, 6_000_000));
+        let n = ctx.share(ctx.tier.n(1_200_000, 10_000_000));
         ctx.run_generated("e2e", n, e2e_strategy(), e2e_check);
-        let k = ctx.share(ctx.tier.n(150_000, 2_000_000));
+        let k = ctx.share(ctx.tier.n(500_000, 4_000_000));
         ctx.run_generated("sticky", k, sticky_strategy(), sticky_check);
         let np = ctx.share(ctx.tier.n(2, 16));
         let others = ctx.tier.n(66_000, 140_000) as u32;
         ctx.run_generated("pressure", np, (scenario_quiet(Fam::Any), Just(others), any::<u8>()).prop_map(|(scn, others, cut)| Pressure { scn, others, cut }), pressure_check);
-        let m = ctx.share(ctx.tier.n(4_000, 60_000));
+        let m = ctx.share(ctx.tier.n(8_000, 80_000));
         ctx.run_generated("seg", m, (scenario_quiet(Fam::Any), port(), port(), prefix_strategy(), prop_oneof![2 => Just(0u16), 2 => prop::sample::select(vec![F_FIN, F_URG, F_RST, F_ECE, F_CWR, F_NS, F_SYN, F_FIN | F_URG]), 1 => (0u16..512).prop_map(|f| f & !(F_PSH | F_ACK))]).prop_map(|(scn, sport, dport, prefix, last_extra)| SegCase { scn, sport, dport, prefix, last_extra }), seg_check);
     }
     fn replay(&self, stream: &str, case: &Value, st: &mut Stats) -> Check {
